@@ -14,6 +14,7 @@ import (
 	"github.com/tendermint/tendermint/libs/fail"
 	tmos "github.com/tendermint/tendermint/libs/os"
 	"github.com/tendermint/tendermint/libs/tempfile"
+	"github.com/tendermint/tendermint/p2p"
 	tmproto "github.com/tendermint/tendermint/proto/tendermint/types"
 	"github.com/tendermint/tendermint/types"
 	tmtime "github.com/tendermint/tendermint/types/time"
@@ -55,9 +56,26 @@ type sim struct {
 	wrng         *simcore.RNG
 	lastHRS      string
 	lastSkipped  []string
+	inflight     []*inflightMsg
+	inflightSeq  int
 	lastHRSAt    time.Time
 
 	mon *monitor
+}
+
+// inflightMsg is a message that left its sender but has not arrived yet: it is delivered
+// later whatever round the receiver has reached by then (asynchrony: late messages from
+// old rounds).
+type inflightMsg struct {
+	id   int
+	kind string // proposal | part | vote
+	to   int
+	peer p2p.ID
+	h    int64
+	r    int32
+	prop *types.Proposal
+	part *types.Part
+	vote *types.Vote
 }
 
 type gstInfo struct {
@@ -198,6 +216,7 @@ func baseConfig(rng *simcore.RNG, env *simcore.Env) simcore.Op {
 	if c.Bool("big_txs") && c.Int("tx_rate") == 0 {
 		c["tx_rate"] = 8
 	}
+	c["inflight"] = rng.Bool(0.5) // messages may stay in flight and arrive rounds later
 	c["nemesis"] = "none"
 	if (prop == "C01" || prop == "C02") && rng.Bool(0.6) {
 		c["nemesis"] = "fork"
@@ -846,8 +865,16 @@ func (s *sim) Next(rng *simcore.RNG) simcore.Op {
 		ti, _, _ := n.ticker.Pending()
 		return simcore.Op{"a": "timeout", "node": n.idx, "dt": rng.Intn(int(ti.Duration/time.Millisecond) + 1)}
 	}
+	if s.cfg.Bool("inflight") && len(s.inflight) > 0 && rng.Bool(0.12) {
+		return simcore.Op{"a": "arrive", "id": s.inflight[rng.Intn(len(s.inflight))].id}
+	}
 	if len(items) > 0 {
 		it := items[rng.Intn(len(items))]
+		if s.cfg.Bool("inflight") && len(s.inflight) < 40 && (it.kind == "vote" || it.kind == "proposal" || it.kind == "part") && rng.Bool(0.15) {
+			op := it.op()
+			op["a"] = "delay"
+			return op
+		}
 		if s.cfg.Bool("corrupt_parts") && it.kind == "part" && rng.Bool(0.5) {
 			it.mut = partMutations[rng.Intn(len(partMutations))]
 		}
@@ -1017,6 +1044,10 @@ func (s *sim) apply(op simcore.Op) bool {
 		n.skew = time.Duration(op.Int("ms")) * time.Millisecond
 		s.env.Count("fault.clock_skew")
 		return true
+	case "delay":
+		return s.delay(itemFromOp(op))
+	case "arrive":
+		return s.arrive(op.Int("id"))
 	case "gst":
 		return s.applyGST()
 	case "byz":
@@ -1045,3 +1076,89 @@ var _ = bytes.Equal
 var _ = sort.Ints
 var _ = tmproto.PrevoteType
 var _ cs.WAL
+
+// delay takes a deliverable item off the holder now but lets it arrive later.
+func (s *sim) delay(it item) bool {
+	if it.from < 0 || it.from >= len(s.nodes) || it.to < 0 || it.to >= len(s.nodes) || it.from == it.to {
+		return false
+	}
+	a, b := s.nodes[it.from], s.nodes[it.to]
+	if !a.isAlive() || !b.isAlive() || !s.connected(a.idx, b.idx) {
+		return false
+	}
+	ra := a.cs.GetRoundState()
+	if ra.Height != it.h {
+		return false
+	}
+	m := &inflightMsg{kind: it.kind, to: it.to, peer: a.peer, h: it.h, r: it.r}
+	switch it.kind {
+	case "proposal":
+		if ra.Round != it.r || ra.Proposal == nil {
+			return false
+		}
+		p := *ra.Proposal
+		m.prop = &p
+	case "part":
+		if ra.ProposalBlockParts == nil {
+			return false
+		}
+		m.part = ra.ProposalBlockParts.GetPart(it.part)
+		if m.part == nil {
+			return false
+		}
+	case "vote":
+		vs := voteSetOf(ra, it.r, it.typ)
+		if vs == nil {
+			return false
+		}
+		v := vs.GetByIndex(int32(it.val))
+		if v == nil {
+			return false
+		}
+		m.vote = v.Copy()
+	default:
+		return false
+	}
+	s.inflightSeq++
+	m.id = s.inflightSeq
+	s.inflight = append(s.inflight, m)
+	s.tried[it.key()] = fmt.Sprintf("%d:%s", b.inc, stamp(b.cs.GetRoundState()))
+	s.env.Count("fault.msg_delayed_in_flight")
+	return true
+}
+
+// arrive delivers an in-flight message.
+func (s *sim) arrive(id int) bool {
+	k := -1
+	for i, m := range s.inflight {
+		if m.id == id {
+			k = i
+		}
+	}
+	if k < 0 {
+		return false
+	}
+	m := s.inflight[k]
+	s.inflight = append(s.inflight[:k], s.inflight[k+1:]...)
+	b := s.nodes[m.to]
+	if !b.isAlive() {
+		return true // lost with the receiver's crash
+	}
+	rb := b.cs.GetRoundState()
+	if rb.Height == m.h && rb.Round > m.r {
+		s.env.Count("fault.msg_arrived_rounds_late")
+	}
+	switch m.kind {
+	case "proposal":
+		s.mon.onDeliverProposal(b, m.prop)
+		s.with(b, func() { b.cs.SetProposal(m.prop, m.peer) })
+	case "part":
+		s.mon.onDeliverPart(b, m.h, m.part)
+		s.with(b, func() { b.cs.AddProposalBlockPart(m.h, m.r, m.part, m.peer) })
+	case "vote":
+		s.mon.onDeliverVote(b, m.vote)
+		s.with(b, func() { b.cs.AddVote(m.vote, m.peer) })
+	}
+	s.env.Count("op.arrive")
+	return true
+}
